@@ -72,6 +72,19 @@ BytesIO over the bytes of the SAME buffer (value or exception class; null: NullP
 dereferenced structure followed one more hop, `(p +- k)` is of p's class and dereferences to the parse at addr +- k, attribute access through
 the pointer, pointer.dumps() and holder.dumps() write the addresses back, a BytesIO stays where the parse left it, the caller's buffer is not
 modified; the first-hop dereferences also go to the Lean model.  All seven widths, both byte orders, both readers.
+
+Pointer declarator spellings (harness/v9_c16.py, declarator_spellings / legacy_spellings): generated definitions whose pointer declarators - 1..3
+stars, also on top of a pointer typedef, in members, arrays of pointers (`T * *p[2][K2]`), typedefs and typedef'd arrays; targets: integers, multi-word
+integer names, floats, enum, `char`, `wchar`, `void`, a structure by name / `struct X` / inline - carry nothing, blanks, tabs, LF / CRLF line breaks or
+comments (`/* * */`, `// ...`) in every gap: between the type and the first star, BETWEEN the stars (`char * *p`, `char*\n*p`, `char */**/* p`), between
+the last star and the name, in front of the `;`.  Loaded through cs.load, cs.loadfile (a real file), two loads, `cstruct().load()` (packed / aligned) and -
+one-level members only - the legacy parser.  Oracle from the generated plan: the field / typedef names are the declared names (no star, blank or comment
+in a name), the type has the declared dimensions and number of pointer levels above the declared target, every level's class has the configured pointer
+width, offsets and size follow from it (layout computed by the harness), values are the unsigned integers planted; dereferencing level by level walks a
+planted chain slot -> cell -> ... -> target (intermediate results are pointers of the promised class holding the integer in the cell; the target is the
+NUL-terminated bytes for `char`, int.from_bytes for integers, the reference parse otherwise; null and beyond-the-data at every level), stream unmoved,
+repeated dereference, `p + k`, dumps, stream-less null; typedef'd pointer types read on their own with the stream at their slot.  The last-level
+dereferences go to the Lean model, every text to the model of the definition parser (`parsedecls`: pointer depth, name, dimensions per declarator).
 """
 from __future__ import annotations
 
@@ -84,6 +97,7 @@ from .. import u4_c16 as u4
 from .. import v4_c16 as v4
 from .. import v6_c16 as v6
 from .. import v8_c16 as v8
+from .. import v9_c16 as v9
 from ..common import A, Case, Result, mkrng, parse_sexp, run_driver, sx
 
 PTRS = dict(s2_ptr.ALL_PTRS)   # uint8 .. uint128, packable and not
@@ -132,6 +146,13 @@ def run(env) -> Result:
                 "at that absolute offset of the same buffer (value or exception class), stable, T** / pointer members of dereferenced structures followed, (p +- k) of p's class and "
                 "dereferencing to the parse at addr +- k, attribute access, pointer and holder dumps write the addresses back, BytesIO not moved, caller's buffer not modified, model "
                 "compared on the first hop; 7 widths x {<,>} x {interpreted, compiled}. "
+                "Pointer declarator spellings: generated records and typedefs whose pointer declarators (1..3 stars on scalars, multi-word integer names, enum, char, wchar, void, a structure by name / "
+                "`struct X` / inline; on top of pointer typedefs; members, arrays [n] / [n][m], typedefs, typedef'd arrays) have nothing / blanks / tabs / LF / CRLF / block and line comments in every gap - "
+                "before, BETWEEN and behind the stars, before the `;` -, loaded through load, loadfile, two loads, the chained load (packed/aligned) and, for one-level members, the legacy parser: field and "
+                "typedef names are the declared ones (no star in a name), dimensions and the number of pointer levels are the declared ones, every level's class is pointer-width wide, offsets and "
+                "record size follow (independent layout), values == the unsigned integers planted, dereferencing level by level follows the planted chain (intermediate pointers of the promised class "
+                "holding the cell's integer; the target: NUL-terminated bytes for char, int.from_bytes for integers, the reference parse otherwise; null / beyond-the-data at every level), stream "
+                "unmoved, stable, p + k, dumps, stream-less null; the definition parser's model (parsedecls) compared per declarator; 7 widths x {<,>} x {interpreted, compiled}. "
                 "distinct = (config, target, address, data); non-trivial = non-null address (failed-dereference family: the access fails with something other than EOFError)")
     dc = impl.dc()
     rnd = mkrng(env["seed"], "c16")
@@ -436,6 +457,10 @@ def run(env) -> Result:
     # ---- input kinds of pointer holders: bytes / bytearray / memoryview (whole, slice) / BytesIO x T(x), T.read, T.reads, cs.read; targets
     # behind the holder's own bytes (own PRNG stream)
     v8.buffer_inputs(dc, env, res, viol, mkrng(env["seed"], "c16-buffer-inputs"), lines, metas)
+    # ---- pointer declarator spellings: blanks / line breaks / comments before, between and behind the stars of 1..3-level declarators in
+    # members, arrays and typedefs, through load / loadfile / two loads / chained load; one-level members through the legacy parser (own PRNG streams)
+    v9.declarator_spellings(dc, env, res, viol, mkrng(env["seed"], "c16-declarator-spellings"), lines, metas)
+    v9.legacy_spellings(dc, env, res, viol, mkrng(env["seed"], "c16-legacy-spellings"))
     # pointer inside a fixed-size union (finding F11): the dereference must read the outer stream
     for pname, endian in itertools.product(("uint16", "uint32"), "<>"):
         cs = dc.cstruct(endian=endian, pointer=pname)
